@@ -59,6 +59,9 @@ def lexical_mutants(name, text, step=1):
             yield {'kind': 'lexical', 'cls': cls, 'detail': 'gap#%d' % k, 'planted': quoted, 'name': name, 'text': text[:off] + ' ' + ins + ' ' + text[off:]}
 
 
+
+catalogue = gfam.diagnostic_catalogue
+
 def run_case(case):
     args = list(case.get('args', ('-w', 'all')))
     r = exptools.run_tool(case.get('tool', 'check-express'), case['text'].encode('latin1'), args=args, timeout=60, fname='zq_input_file.exp', extra_files=case.get('extra_files'))
@@ -133,7 +136,7 @@ def judge(case, res):
                 continue
             if name in ('SYNTAX', 'SYNTAX_EXPECTING'):
                 break        # parser messages quote grammar symbols, not input text
-            if name in EXPECT.get(cls, ()):
+            if name in EXPECT.get(cls, ()) or name in case.get('expect', ()):
                 expected_seen = True
             for k, g in zip(kinds, m.groups()):
                 if k == 's':
@@ -242,6 +245,7 @@ def main():
             main = 'SCHEMA zq_main;\n' + ''.join('REFERENCE FROM ext_%s (thing_%s);\n' % (n, n) for n in order) + 'ENTITY top;\n' + ''.join('  f%s : thing_%s;\n' % (n, n) for n in order) + 'END_ENTITY;\nEND_SCHEMA;\n'
             cases.append({'kind': 'multi-file', 'cls': 'undefined-type', 'detail': 'in ext_%s, order %s' % (badn, ''.join(order)), 'planted': 'zq_missing_in_' + badn, 'name': 'files', 'text': main,
                           'extra_files': {'ext_%s.exp' % n: ext(n, n == badn) for n in 'abc'}, 'expect_file': 'ext_%s.exp' % badn})
+    cases += list(catalogue())
     results = common.pmap(run_case, cases, chunksize=8)
     for c, res in zip(cases, results):
         chk.count(states=1, transitions=1)
